@@ -774,9 +774,9 @@ theorem p11ObjectToPublicKey_rsa_run (tok : Token) (path : String) (slot h : Nat
   simp only [attrBytes, bind_run, TokM.pure_run, TokM.lift_run]
   cases rsaEncode (beNat e) n <;> rfl
 
-/-- SoftHSM2 wraps the point in a DER OCTET STRING `04 <len> 04 …`: the octets after the header -/
-def ecUnwrap (point : Bytes) : Bytes :=
-  if point.take 3 = [4, UInt8.ofNat (point.length - 2), 4] then point.drop 2 else point
+/- `ecUnwrap` (SoftHSM2 wraps the point in a DER OCTET STRING `04 <len> 04 …`: the octets after the header,
+   by the rule of the tree in /repo now) and `ecUnwrapWith` (the rule for either value of the tabulated
+   behaviour switch) are part of the model: Kskm/Hsm.lean. -/
 
 /-- the EC branch of `_p11_object_to_public_key` once point and parameters have been read -/
 def ecDerive (point params : Bytes) : Res (Option String) :=
@@ -787,6 +787,56 @@ def ecDerive (point params : Bytes) : Res (Option String) :=
     (if ((ecUnwrap point).length - 1) * 8 / 2 ≠ 384 then err .runtime
      else pure (some (Base64.encode (ecUnwrap point))))
   else err .runtime
+
+/-- the EC branch under either unwrap rule (`checksLength` = the tabulated behaviour switch
+    `KskmGen.ecUnwrapChecksLength`): same text as `ecDerive` with `ecUnwrapWith checksLength` -/
+def ecDeriveWith (checksLength : Bool) (point params : Bytes) : Res (Option String) :=
+  if params = ecOidP256 then
+    (if ((ecUnwrapWith checksLength point).length - 1) * 8 / 2 ≠ 256 then err .runtime
+     else pure (some (Base64.encode (ecUnwrapWith checksLength point))))
+  else if params = ecOidP384 then
+    (if ((ecUnwrapWith checksLength point).length - 1) * 8 / 2 ≠ 384 then err .runtime
+     else pure (some (Base64.encode (ecUnwrapWith checksLength point))))
+  else err .runtime
+
+/-- `ecDerive` is `ecDeriveWith` at the switch value tabulated from the tree in /repo now -/
+theorem ecDerive_eq_with (point params : Bytes) :
+    ecDerive point params = ecDeriveWith KskmGen.ecUnwrapChecksLength point params := rfl
+
+/-- a string that does not start with the three octets of a wrapper of itself is left alone by either rule -/
+theorem ecUnwrapWith_of_not_prefix (b : Bool) (point : Bytes)
+    (h : point.take 3 ≠ [4, UInt8.ofNat (point.length - 2), 4]) : ecUnwrapWith b point = point := by
+  unfold ecUnwrapWith
+  rw [if_neg (fun hc => h hc.1)]
+
+/-- a wrapped point `04 k 04 x y` whose inner part has k = 65 / 97 octets is unwrapped by either rule -/
+theorem ecUnwrapWith_wrapped (b : Bool) (xy : Bytes) (k : Nat) (hk : k = 65 ∨ k = 97)
+    (hxy : xy.length + 1 = k) : ecUnwrapWith b (4 :: UInt8.ofNat k :: 4 :: xy) = 4 :: xy := by
+  unfold ecUnwrapWith
+  have hl : (4 :: UInt8.ofNat k :: 4 :: xy).length - 2 = k := by simp; omega
+  rw [hl]
+  have hc : List.take 3 (4 :: UInt8.ofNat k :: 4 :: xy) = [4, UInt8.ofNat k, 4] ∧
+      (b = false ∨ k = 65 ∨ k = 97) := ⟨by simp, Or.inr hk⟩
+  rw [if_pos hc]
+  rfl
+
+/-- the repaired rule leaves EVERY string of 65 / 97 octets alone, whatever its octets -/
+theorem ecUnwrapWith_true_of_point_length (point : Bytes) (h : point.length = 65 ∨ point.length = 97) :
+    ecUnwrapWith true point = point := by
+  unfold ecUnwrapWith
+  have hc : ¬ (point.take 3 = [4, UInt8.ofNat (point.length - 2), 4] ∧
+      (true = false ∨ point.length - 2 = 65 ∨ point.length - 2 = 97)) := by
+    rintro ⟨_, h1 | h2 | h3⟩
+    · cases h1
+    · omega
+    · omega
+  rw [if_neg hc]
+
+/-- the pinned rule cuts two octets off every string that starts with the three octets of a wrapper of itself -/
+theorem ecUnwrapWith_false_of_prefix (point : Bytes)
+    (h : point.take 3 = [4, UInt8.ofNat (point.length - 2), 4]) : ecUnwrapWith false point = point.drop 2 := by
+  unfold ecUnwrapWith
+  rw [if_pos ⟨h, Or.inl rfl⟩]
 
 theorem p11ObjectToPublicKey_ec_absent (tok : Token) (path : String) (slot h : Nat) (pt : AttrAns)
     (hkt : ∀ i, tok i (.getAttr path slot h ["KEY_TYPE"]) = .attrs [.num ckkEc])
@@ -822,14 +872,14 @@ theorem p11ObjectToPublicKey_ec_run (tok : Token) (path : String) (slot h : Nat)
   simp only [attrBytes, bind_run, TokM.pure_run]
   have pure_bind : ∀ {α β : Type} (x : α) (f : α → TokM β) (t : Token) (s : TokState),
       (pure x >>= f) t s = f x t s := fun _ _ _ _ => rfl
-  unfold ecDerive ecUnwrap
+  unfold ecDerive
   by_cases h1 : params = ecOidP256
   · simp only [h1, ↓reduceIte, pure_bind, ite_run, TokM.err_run, TokM.pure_run]
-    split <;> split <;> rfl
+    split <;> rfl
   · by_cases h2 : params = ecOidP384
     · subst h2
       simp only [h1, ↓reduceIte, pure_bind, ite_run, TokM.err_run, TokM.pure_run]
-      split <;> split <;> rfl
+      split <;> rfl
     · simp only [h1, h2, ↓reduceIte, err_bind_run]
       rfl
 
